@@ -82,7 +82,7 @@ def register(R):
                    ]}},
                ensures=[
                    ("C01", "self._total_samples == old(self._total_samples) + 1"),
-                   ("C01", "self._samples_since_reset == (1 if old(self._drift_state) == 'drift' "
+                   ("C01,C02", "self._samples_since_reset == (1 if old(self._drift_state) == 'drift' "
                            "else old(self._samples_since_reset) + 1)"),
                    ("C05", "self._error_rate == " + RATE1),
                    ("C05", "self._error_std == " + STD1),
